@@ -648,7 +648,8 @@ def run_tmcmc_updated(
         )
 
         # Calculate covaraince matrix using Wm_n
-        Cm = np.cov(Sm, aweights=Wm_n, rowvar=0)
+        # np.cov returns a 0-d array for a single parameter; the proposal needs a (Np, Np) matrix
+        Cm = np.atleast_2d(np.cov(Sm, aweights=Wm_n, rowvar=0))
 
         # * --------------------------------------------------------- Resample
         # Resampling using plausible weights
